@@ -644,6 +644,16 @@ func (e *Engine) execOp(idx int, task string, invokeEvent int) {
 			before = len(e.sets)
 			e.mu.Unlock()
 			rec.ReadBack, rec.RBErr = e.wit.GetCheckpoint(req.LogID)
+			if e.plan.Cfg.Extra["http_readback"] != 0 && req.Known {
+				// the same read through the registered HTTP handler
+				if resp, err := e.hclient.Get("http://witness.example/witness/v0/logs/" + req.LogID + "/checkpoint"); err == nil {
+					rec.HStatus = resp.StatusCode
+					rec.HBody, _ = io.ReadAll(resp.Body)
+					resp.Body.Close()
+				} else {
+					rec.HErr = err
+				}
+			}
 			e.mu.Lock()
 			rec.RBValid = len(e.sets) == before
 			e.mu.Unlock()
